@@ -83,6 +83,8 @@ impl<T: RefCnt> HybridProtection<T> {
         // the pointer. We just need to make sure to bring the pointee in (this can be newer than
         // what we got in the Debt)
         let candidate = storage.load(SeqCst);
+        #[cfg(arc_swap_verif)]
+        verif_rt::event(verif_rt::probes::FAST_FIRST_READ, candidate as usize);
 
         // Try to replace the debt with our candidate. If it works, we get the debt slot to use. If
         // not, we get a replacement value, already protected and a debt to take care of.
@@ -100,7 +102,7 @@ impl<T: RefCnt> HybridProtection<T> {
                 // back right away.
                 if !unused_debt.pay::<T>(candidate) {
                     #[cfg(arc_swap_verif)]
-                    verif_rt::probe(verif_rt::probes::FB_HELPED_AND_PAID, false);
+                    verif_rt::event(verif_rt::probes::FB_HELPED_AND_PAID, candidate as usize);
                     unsafe { T::dec(candidate) };
                 }
                 // We got a (possibly) different pointer out. But that one is already protected and
